@@ -411,7 +411,7 @@ theorem qr_new_not_too_large (level : Int) (hl : Model.QR.levelIsValid level = t
         exact hne (List.eq_nil_of_length_eq_zero h0)
       have hsz : data.toArray.size < 2 ^ 56 := by
         simp only [List.size_toArray]; omega
-      simp only [Bool.false_eq_true, if_false]
+      simp only [Bool.false_eq_true, if_false, false_and, and_false]
       have hmodes : ∀ s ∈ newQRSegs ((4 + 14) * 6) ((4 + 13) * 6) ((4 + 16) * 6) [0, 1, 2, 4] data.toArray,
           s.mode = 1 ∨ s.mode = 2 ∨ s.mode = 4 ∨ s.mode = 8 := by
         intro s hs
